@@ -623,6 +623,14 @@ fn flush_worker_shards(
     for shard_id in (ctx.worker_id..ctx.sharded_buffers.len()).step_by(ctx.worker_count) {
         let buffer = &ctx.sharded_buffers[shard_id];
         let entries = buffer.drain_entries();
+        #[cfg(feoxdb_verif)]
+        crate::verif::proto::event(
+            crate::verif::proto::Kind::WorkerFlush,
+            ctx.worker_id as u64,
+            shard_id as u64,
+            &[],
+            entries.len() as u64,
+        );
         if entries.is_empty() {
             continue;
         }
